@@ -191,6 +191,13 @@ def load_findings():
 def run_check(pid, tier, seed, replay=None, keep=False):
     spec = CHECKS[pid]
     outdir = os.path.join(BUILD, "out", pid)
+    # one run per property at a time: concurrent runs of the same check would share this directory (overlay, race logs,
+    # result files) and read each other's observations; a second run waits for the first
+    os.makedirs(os.path.join(BUILD, "out"), exist_ok=True)
+    import fcntl
+    lock = open(os.path.join(BUILD, "out", pid + ".lock"), "w")
+    fcntl.flock(lock, fcntl.LOCK_EX)
+    globals().setdefault("_LOCKS", []).append(lock)  # held until the process exits
     shutil.rmtree(outdir, ignore_errors=True)
     os.makedirs(outdir)
     os.makedirs(os.path.join(VERIF, "evidence"), exist_ok=True)
